@@ -7,7 +7,7 @@ Obligation: the member is held the same way in both (by value vs. by reference),
 constructor initialises it the same way in both (fresh `()` vs. taken over from the parent level).
 A cache of facts proven under the current level's assumptions that becomes shared across levels in one
 sibling only keeps facts alive after the assumption they rest on was refuted."""
-from vfacts import strip, walk, is_node
+from vfacts import strip, walk, is_node, method_name
 
 RULE = 'SIBLING'
 FLOOR = 6
@@ -35,6 +35,54 @@ def init_form(unit, ctor, field):
     return 'implicit'
 
 
+# methods confirmed (by reading) to be the same query in both siblings: their calls must agree argument by argument
+AGREE = ('isInWorkset', 'isImpliedByChildren', 'isNoninclusionImplied', 'IsImpliedByPreorder', 'processFoundNoninclusion',
+         'processFoundInclusion')
+
+
+def call_shapes(unit, fn):
+    """order-insensitive list of (callee, receiver member, argument shapes) — shapes name parameters by position,
+    loop variables as 'elem', and keep member paths (first/second, field names)"""
+    from vfacts import root_path
+    from .prov import var_table
+    pidx = {p_['d']: i for i, p_ in enumerate(fn.params)}
+    vt = var_table(fn)
+
+    def shape(e, depth=0):
+        e = strip(e)
+        if e is None or depth > 6:
+            return '?'
+        k = e['k']
+        if k == 'DeclRefExpr':
+            if e.get('d') in pidx:
+                return 'p%d' % pidx[e['d']]
+            v = vt.get(e.get('d'))
+            if v and v['kind'] == 'rangevar':
+                return 'elem'
+            return 'v'
+        if k == 'MemberExpr':
+            ch = e.get('ch') or []
+            b = strip(ch[0]) if ch else None
+            if b is not None and b['k'] == 'CXXThisExpr':
+                return 'this.' + e['n']
+            return shape(ch[0], depth + 1) + '.' + e['n'] if ch else e['n']
+        if k in ('CXXMemberCallExpr',):
+            return shape(e.get('obj'), depth + 1) + '.' + (method_name(e) or '?') + '()'
+        if k == 'CXXOperatorCallExpr':
+            return 'op' + e.get('op', '') + '(' + ','.join(shape(a, depth + 1) for a in e.get('args', [])) + ')'
+        if k == 'UnaryOperator':
+            return e.get('op', '') + shape(e['ch'][0], depth + 1)
+        return k
+    out = []
+    for c in fn.calls():
+        if c['k'] == 'CXXMemberCallExpr':
+            out.append((method_name(c), shape(c.get('obj')), tuple(shape(a) for a in c.get('args', []))))
+        elif c['k'] == 'CXXOperatorCallExpr' and c.get('op') == '()':
+            args = c.get('args', [])
+            out.append(('()', shape(args[0]) if args else '?', tuple(shape(a) for a in args[1:])))
+    return sorted(out)
+
+
 def run(unit, em):
     recs = {}
     for r in unit.records:
@@ -56,6 +104,23 @@ def run(unit, em):
                 continue
             em.anchor(fn_any, a.split('::')[-1])
             em.anchor(fn_any, b.split('::')[-1])
+            # same-named query methods agree call by call
+            for mname in AGREE:
+                ma = [f for f in unit.functions if f.cls == a and f.q.rsplit('::', 1)[-1] == mname and f.d.get('rc') == ra['rc'] and f.body is not None]
+                mb = [f for f in unit.functions if f.cls == b and f.q.rsplit('::', 1)[-1] == mname and f.d.get('rc') == rb['rc'] and f.body is not None]
+                if not ma or not mb:
+                    continue
+                sa, sb = call_shapes(unit, ma[0]), call_shapes(unit, mb[0])
+                # the optimised sibling may make extra calls (it also returns the matching element); every call both make must agree
+                ka = {(c_[0], c_[1]): c_[2] for c_ in sa}
+                kb = {(c_[0], c_[1]): c_[2] for c_ in sb}
+                diff = [(k_, ka[k_], kb[k_]) for k_ in ka if k_ in kb and ka[k_] != kb[k_]]
+                if diff:
+                    k_, x, y = diff[0]
+                    em.violation(ma[0], 'method %s' % mname, 'the sibling functors disagree on the arguments of %s on %s: %s passes (%s), %s passes (%s)' % (
+                        k_[0], k_[1], a.split('::')[-1], ', '.join(x), b.split('::')[-1], ', '.join(y)), 'calls')
+                else:
+                    em.ok(ma[0], 'method %s' % mname, '%d common calls agree argument by argument' % len([k_ for k_ in ka if k_ in kb]), 'calls')
             for name in sorted(set(fa) & set(fb)):
                 ta, tb = unit.tname(fa[name]['t']), unit.tname(fb[name]['t'])
                 refa, refb = ta.rstrip().endswith('&'), tb.rstrip().endswith('&')
